@@ -445,6 +445,46 @@ struct H {
     static const char *name() { return "C09 string to number"; }
     static rc::Gen<Case> gen() { return gen_case(); }
 
+    // coverage-guided mode: a well-formed numeral by construction. byte 0: sign (2 bits), fraction, exponent, width (2 bits),
+    // terminator (2 bits); byte 1: exponent spelling; bytes 2-3: exponent value; then digit nibbles (a nibble above 9 ends the
+    // integer part). Exponents stay within +-400 so that a unit never costs more than the 700-digit classes above.
+    static bool from_fuzz(const uint8_t *d, size_t n, Case &c) {
+        pbt::FuzzBytes f(d, n);
+        uint8_t        b0 = f.sel(), b1 = f.sel();
+        int            ev = ((int(f.sel()) << 8) | f.sel()) % 801 - 400;
+        static const char *sg[] = {"", "-", "+", ""};
+        static const char *tm[] = {"", ",", "]", " "};
+        static const int   w[]  = {1, 2, 4, 1};
+        std::string        ip, fp;
+        bool               in_frac = false;
+        for (uint8_t x : f.rest()) {
+            for (int k = 0; k < 2; ++k) {
+                int nib = k == 0 ? (x >> 4) : (x & 15);
+                if (nib > 9) {
+                    in_frac = true;
+                } else {
+                    (in_frac ? fp : ip).push_back(char('0' + nib));
+                }
+            }
+        }
+        size_t nz = ip.find_first_not_of('0');
+        ip        = (nz == std::string::npos) ? "0" : ip.substr(nz);
+        c.text    = std::string(sg[b0 & 3]) + ip;
+        if (b0 & 4) {
+            c.text += "." + (fp.empty() ? std::string("0") : fp);
+        }
+        if (b0 & 8) {
+            c.text += (b1 & 1) ? "E" : "e";
+            c.text += ev < 0 ? "-" : (b1 & 2) ? "+" : "";
+            c.text += std::string(size_t((b1 >> 2) & 3), '0') + std::to_string(ev < 0 ? -ev : ev);
+        }
+        c.width      = w[(b0 >> 4) & 3];
+        c.terminator = tm[(b0 >> 6) & 3];
+        c.prefix     = (b1 & 64) ? "[1, " : "";
+        c.malformed  = 0;
+        c.cls        = "coverage-guided";
+        return true;
+    }
     static std::string to_text(const Case &c) {
         pbt::KV kv;
         kv.put("text", pbt::enc_bytes(c.text));
@@ -495,4 +535,4 @@ struct H {
 
 } // namespace
 
-int main(int argc, char **argv) { return pbt::run_main<H>(argc, argv); }
+PBT_MAIN(H)
